@@ -134,7 +134,12 @@ class CHECK(Check):
             "with month / weekday names (outside the model's format language: judged by the oracle alone, fitting decided by "
             "the reference); (a') one Field object written 2-4 times (values of other widths, other targets, str and bytes) and "
             "one Line written for 1-3 earlier records before the measured one: every write is judged by the oracle, the model "
-            "gives every record of a Line and the measured write of a Field.")
+            "gives every record of a Line and the measured write of a Field. (b') 35% of the Line cases are one Line object "
+            "whose layout changes between writes: constructed with one layout (half of them tiled from column 0 in declaration "
+            "order), then given 1-3 other layouts through the public fields setter (new Field objects; or a rearrangement of the "
+            "objects it has - some dropped, some new, another order) or by moving its Field objects through their "
+            "starting_position / ending_position setters, with 0-2 records written through each earlier layout; every record is "
+            "judged by the oracle against the layout the Line has at that moment, the model follows with SetFields.")
     exhaustive = True
 
     def entry_of(self, case):
@@ -204,50 +209,146 @@ class CHECK(Check):
         for _ in range(n):
             binary = rng.random() < 0.35
             textual = rng.random() < 0.12
-            if textual:
-                # layouts with date fields in a textual format (outside the model's format language: judged by the oracle alone);
-                # the other fields are of the kinds whose fitting values the reference decides with certainty
-                fs = []
-                pos = rng.randint(0, 3)
-                cnt = rng.randint(1, 5)
-                for i in range(cnt):
-                    if rng.random() < 0.4 or (i == cnt - 1 and not any(is_textual(fd) for fd in fs)):
-                        fd = textual_field(rng, pos)
-                    elif binary and rng.random() < 0.4:
-                        fd = {"k": "int", "size": rng.choice([2, 4, 8]), "start": pos}
-                    else:
-                        fd = fl.gen_field(rng, ("lit", "date") if binary else ("lit", "int", "date"), pos)
-                    fs.append(fd)
-                    pos = fd["start"] + fd["size"] + rng.choice([0, 0, 1, 3])
-                rng.shuffle(fs)
-            elif binary:
-                fs = []
-                pos = rng.randint(0, 2)
-                for _ in range(rng.randint(1, 5)):
-                    k = rng.choice(["lit", "int", "float", "date"])
-                    if k in ("int", "float"):
-                        fd = {"k": k, "size": rng.choice([2, 4, 8]), "start": pos}
-                        if k == "float":
-                            fd.update({"dd": 2, "fmt": "F", "sep": "."})
-                    else:
-                        fd = fl.gen_field(rng, (k,), pos)
-                    fs.append(fd)
-                    pos = fd["start"] + fd["size"] + rng.choice([0, 0, 2])
-                rng.shuffle(fs)
-            else:
-                fs = fl.gen_layout(rng)
-            if len(fs) > 1 and rng.random() < 0.3:
-                # overlapping fields (partial overlap, nesting, same start): a later field overwrites its own span only, the
-                # line is as long as the furthest end, every other field stays on its columns
-                i = rng.randrange(len(fs))
-                j = rng.choice([k for k in range(len(fs)) if k != i])
-                fs[i] = dict(fs[i], start=max(0, fs[j]["start"] + rng.choice([0, 0, 1, -1, fs[j]["size"] - 1])))
+            fs = self.gen_fields(rng, binary, textual)
+            if rng.random() < 0.35:
+                # (b') one Line object whose layout changes between writes (1-3 earlier layouts, 0-2 records written through
+                # each): the fields setter with new Field objects, the fields setter with a rearrangement of the objects it
+                # already has (some dropped, some new, another order), or the same Field objects moved to other columns through
+                # their position setters. Every written record is judged against the layout the Line has at that moment.
+                yield self.gen_relayout(rng, fs, binary, textual)
+                continue
             case = {"t": "line", "fields": fs, "values": self.gen_row(rng, fs, binary, textual), "binary": binary}
             if textual or rng.random() < 0.4:
                 # the same Line written for 1-3 earlier records (other values, renderings of other widths) before the measured one
                 case["history"] = [self.gen_row(rng, fs, binary, textual or rng.random() < 0.5) for _ in range(rng.randint(1, 3))]
             yield case
         yield {"t": "default"}
+
+    @staticmethod
+    def gen_fields(rng, binary, textual):
+        """a multi-field layout in any field order, with gaps; 30% of the layouts with two overlapping fields"""
+        if textual:
+            # layouts with date fields in a textual format (outside the model's format language: judged by the oracle alone);
+            # the other fields are of the kinds whose fitting values the reference decides with certainty
+            fs = []
+            pos = rng.randint(0, 3)
+            cnt = rng.randint(1, 5)
+            for i in range(cnt):
+                if rng.random() < 0.4 or (i == cnt - 1 and not any(is_textual(fd) for fd in fs)):
+                    fd = textual_field(rng, pos)
+                elif binary and rng.random() < 0.4:
+                    fd = {"k": "int", "size": rng.choice([2, 4, 8]), "start": pos}
+                else:
+                    fd = fl.gen_field(rng, ("lit", "date") if binary else ("lit", "int", "date"), pos)
+                fs.append(fd)
+                pos = fd["start"] + fd["size"] + rng.choice([0, 0, 1, 3])
+            rng.shuffle(fs)
+        elif binary:
+            fs = []
+            pos = rng.randint(0, 2)
+            for _ in range(rng.randint(1, 5)):
+                k = rng.choice(["lit", "int", "float", "date"])
+                if k in ("int", "float"):
+                    fd = {"k": k, "size": rng.choice([2, 4, 8]), "start": pos}
+                    if k == "float":
+                        fd.update({"dd": 2, "fmt": "F", "sep": "."})
+                else:
+                    fd = fl.gen_field(rng, (k,), pos)
+                fs.append(fd)
+                pos = fd["start"] + fd["size"] + rng.choice([0, 0, 2])
+            rng.shuffle(fs)
+        else:
+            fs = fl.gen_layout(rng)
+        if len(fs) > 1 and rng.random() < 0.3:
+            # overlapping fields (partial overlap, nesting, same start): a later field overwrites its own span only, the
+            # line is as long as the furthest end, every other field stays on its columns
+            i = rng.randrange(len(fs))
+            j = rng.choice([k for k in range(len(fs)) if k != i])
+            fs[i] = dict(fs[i], start=max(0, fs[j]["start"] + rng.choice([0, 0, 1, -1, fs[j]["size"] - 1])))
+        return fs
+
+    @staticmethod
+    def tiled(fs):
+        """the same fields declared in column order from column 0 without gaps (the commonest shape of a real layout)"""
+        out = []
+        pos = 0
+        for fd in fs:
+            out.append(dict(fd, start=pos))
+            pos += fd["size"]
+        return out
+
+    @classmethod
+    def gen_relayout(cls, rng, first, binary, textual):
+        """a Line constructed with one layout and given 1-3 other layouts afterwards, records written through each of them.
+        A layout is entered by ("set", src): line.fields = [...], where src[i] names the object of the previous layout that
+        stays (unchanged) as field i, None for a new Field object; or by ("move", identity): the Field objects stay and are
+        moved to other columns through their starting_position / ending_position setters."""
+        if rng.random() < 0.5:
+            first = cls.tiled(first)
+        layouts = [(first, None, None)]
+        for _ in range(rng.randint(1, 3)):
+            prev = layouts[-1][0]
+            r = rng.random()
+            if r < 0.4:
+                fs = cls.gen_fields(rng, binary, textual)
+                if rng.random() < 0.25:
+                    fs = cls.tiled(fs)
+                layouts.append((fs, "set", [None] * len(fs)))
+            elif r < 0.75:
+                # a rearrangement of the objects the Line has: some dropped, 0-2 new ones (mostly past the furthest end that is
+                # left), often in another order
+                src = [j for j in range(len(prev)) if rng.random() < 0.7]
+                fs = [prev[j] for j in src]
+                extra = cls.gen_fields(rng, binary, textual)[:rng.randint(0 if fs else 1, 2)]
+                off = 0 if rng.random() < 0.2 else max([fd["start"] + fd["size"] for fd in fs] or [0]) + rng.choice([0, 0, 1, 3])
+                low = min([fd["start"] for fd in extra] or [0])
+                for fd in extra:
+                    fs.append(dict(fd, start=fd["start"] - low + off))
+                    src.append(None)
+                if rng.random() < 0.6:
+                    order = list(range(len(fs)))
+                    rng.shuffle(order)
+                    fs, src = [fs[i] for i in order], [src[i] for i in order]
+                layouts.append((fs, "set", src))
+            else:
+                starts = [fd["start"] for fd in prev]
+                if rng.random() < 0.3:
+                    # one field moved past the furthest end
+                    j = rng.randrange(len(prev))
+                    starts[j] = max(fd["start"] + fd["size"] for fd in prev) + rng.choice([0, 1, 3])
+                else:
+                    # every field placed anew, in any column order
+                    order = list(range(len(prev)))
+                    rng.shuffle(order)
+                    pos = rng.choice([0, 0, 1, 2, 3])
+                    for j in order:
+                        starts[j] = pos
+                        pos += prev[j]["size"] + rng.choice([0, 0, 1, 3])
+                layouts.append(([dict(fd, start=st) for fd, st in zip(prev, starts)], "move", list(range(len(prev)))))
+        before = []
+        for fs, via, src in layouts[:-1]:
+            st = {"fields": fs, "rows": [cls.gen_row(rng, fs, binary, True) for _ in range(rng.randint(0, 2))]}
+            if via:
+                st.update({"via": via, "src": src})
+            before.append(st)
+        fs, via, src = layouts[-1]
+        case = {"t": "line", "before": before, "fields": fs, "via": via, "src": src,
+                "values": cls.gen_row(rng, fs, binary, textual or rng.random() < 0.5), "binary": binary}
+        if rng.random() < 0.4:
+            case["history"] = [cls.gen_row(rng, fs, binary, True)]
+        return case
+
+    @staticmethod
+    def line_stages(case):
+        """the layouts a Line object goes through, in order: (fields, how the layout is entered, src, records written)"""
+        out = [(st["fields"], st.get("via"), st.get("src"), st["rows"]) for st in case.get("before", [])]
+        out.append((case["fields"], case.get("via"), case.get("src"), case.get("history", []) + [case["values"]]))
+        return out
+
+    @classmethod
+    def line_writes(cls, case):
+        """every record written through the Line object, in order, with the layout the Line has at that moment"""
+        return [(fs, row) for fs, _, _, rows in cls.line_stages(case) for row in rows]
 
     @staticmethod
     def gen_row(rng, fs, binary, certain):
@@ -270,7 +371,7 @@ class CHECK(Check):
         if case["t"] == "field":
             return not is_textual(case["fd"])
         if case["t"] == "line":
-            return not any(is_textual(fd) for fd in case["fields"])
+            return not any(is_textual(fd) for fs, _, _, _ in self.line_stages(case) for fd in fs)
         return True
 
     # ---- implementation
@@ -308,18 +409,32 @@ class CHECK(Check):
             return {"out": outs[-1], "hist": outs[:-1]}
         if case["t"] == "line":
             from cfinterface.components.line import Line
-            fields = [fl.mk_field(fd) for fd in case["fields"]]
-            line = Line(fields, storage="BINARY" if case["binary"] else "TEXT")
             hh = self.case_hash(case)
             outs = []
-            for r, row in enumerate(case.get("history", []) + [case["values"]]):
-                try:
-                    out = line.write([fl.py_value_typed(v, (hh >> (3 * (i + r) + 1)) if hh & 1 else 0) for i, v in enumerate(row)])
-                except OverflowError:
-                    out = None
-                outs.append(list(out) if isinstance(out, bytes) else out)
+            line = None
+            r = 0
+            for fds, via, src, rows in self.line_stages(case):
+                if line is None:
+                    fields = [fl.mk_field(fd) for fd in fds]
+                    line = Line(fields, storage="BINARY" if case["binary"] else "TEXT")
+                elif via == "move":
+                    # the Field objects the Line has, moved to other columns through their public position setters
+                    for f, fd in zip(fields, fds):
+                        f.starting_position = fd["start"]
+                        f.ending_position = fd["start"] + fd["size"]
+                else:
+                    # the public fields setter: objects the Line already has (src) and new ones
+                    fields = [fl.mk_field(fd) if j is None else fields[j] for fd, j in zip(fds, src)]
+                    line.fields = fields
+                for row in rows:
+                    try:
+                        out = line.write([fl.py_value_typed(v, (hh >> (3 * (i + r) + 1)) if hh & 1 else 0) for i, v in enumerate(row)])
+                    except OverflowError:
+                        out = None
+                    outs.append(list(out) if isinstance(out, bytes) else out)
+                    r += 1
             obs = {"out": outs[-1]}
-            if "history" in case:
+            if "history" in case or "before" in case:
                 obs["hist"] = outs[:-1]
             return obs
         from cfinterface.components.literalfield import LiteralField
@@ -344,11 +459,16 @@ class CHECK(Check):
             tgt = case["target"]
             return [6 if case["mode"] == "str" else 7, fl.field_sx(case["fd"]), fl.value_sx(case["v"]), tgt]
         if case["t"] == "line":
-            st = [[fl.field_sx(fd), []] for fd in case["fields"]]
+            stages = self.line_stages(case)
+            st = [[fl.field_sx(fd), []] for fd in stages[0][0]]
             ops = []
-            for row in case.get("history", []) + [case["values"]]:
-                vals = [fl.value_sx(v) for v in row]
-                ops += [[8, vals], [5, vals]]       # per written record: does every value fit, and the written line
+            for k, (fds, _, _, rows) in enumerate(stages):
+                if k:
+                    # a later layout of the same Line (SetFields; a moved field is the field at its new columns)
+                    ops.append([0, [[fl.field_sx(fd), []] for fd in fds]])
+                for row in rows:
+                    vals = [fl.value_sx(v) for v in row]
+                    ops += [[8, vals], [5, vals]]       # per written record: does every value fit, and the written line
             return [0, [st, [], [], case["binary"]], ops]
         ops = []
         st = []
@@ -367,9 +487,16 @@ class CHECK(Check):
             return {"out": fl.obytes(out), "fits": bool(fits)}
         if case["t"] == "line":
             dec = fl.obytes if case["binary"] else fl.ostr
-            outs = [dec(o) for o in res[1::2]]
-            obs = {"out": outs[-1], "fits": all(all(f) for f in res[0::2])}
-            if "history" in case:
+            res = list(res)
+            fits, outs = [], []
+            for k, (_, _, _, rows) in enumerate(self.line_stages(case)):
+                if k:
+                    res.pop(0)                      # the setter's (empty) result
+                for _ in rows:
+                    fits.append(res.pop(0))
+                    outs.append(dec(res.pop(0)))
+            obs = {"out": outs[-1], "fits": all(all(f) for f in fits)}
+            if "history" in case or "before" in case:
                 obs["hist"] = outs[:-1]
             return obs
         obs = {}
@@ -401,9 +528,9 @@ class CHECK(Check):
             outs = list(obs.get("hist", [])) + [obs.get("out")]
             judge1 = lambda step, out: self.field_frame(case["fd"], step[0], step[1], step[2], out)
         else:
-            steps = case.get("history", []) + [case["values"]]
+            steps = self.line_writes(case)      # (the layout the Line has at that moment, the record)
             outs = list(obs.get("hist", [])) + [obs.get("out")]
-            judge1 = lambda row, out: self.line_shape(case["fields"], row, case["binary"], out)
+            judge1 = lambda step, out: self.line_shape(step[0], step[1], case["binary"], out)
         if len(outs) != len(steps):
             return "the observation has %d writes, the case %d" % (len(outs), len(steps))
         for k, (step, out) in enumerate(zip(steps, outs)):
@@ -503,8 +630,19 @@ class CHECK(Check):
             d = {"line_binary" if case["binary"] else "line_text": 1, "line_fields_%d" % len(case["fields"]): 1}
             if "history" in case:
                 d["line_earlier_records_%d" % len(case["history"])] = 1
-            if any(is_textual(fd) for fd in case["fields"]):
+            if not self.comparable(case):
                 d["line_textual_date_format_oracle_only"] = 1
+            if "before" in case:
+                stages = self.line_stages(case)
+                d["line_relayout_earlier_layouts_%d" % (len(stages) - 1)] = 1
+                d["line_relayout_records_through_earlier_layouts_%d" % sum(len(st[3]) for st in stages[:-1])] = 1
+                for fds, via, src, _ in stages[1:]:
+                    how = "fields_moved_by_position_setters" if via == "move" else "fields_setter_new_objects" if all(j is None for j in src) \
+                        else "fields_setter_rearranged_objects"
+                    d["line_relayout_by_" + how] = 1
+                tiles = [fds == self.tiled(fds) for fds, _, _, _ in stages]
+                d["line_relayout_constructed_%s" % ("tiled_from_column_0" if tiles[0] else "with_gaps_or_out_of_order")] = 1
+                d["line_relayout_measured_layout_%s" % ("tiled_from_column_0" if tiles[-1] else "with_gaps_or_out_of_order")] = 1
             return d
         return {"defaults": 1}
 
@@ -550,14 +688,68 @@ class CHECK(Check):
                 yield dict(case, target="")
             if case["fd"]["start"] > 0:
                 yield dict(case, fd=dict(case["fd"], start=0))
-        if case["t"] == "line" and len(case["fields"]) > 1:
+        if case["t"] == "line" and case.get("before"):
+            yield from self.shrink_relayout(case)
+        if case["t"] == "line" and len(case["fields"]) > 1 and not (case.get("before") and case.get("via") == "move"):
             for i in range(len(case["fields"])):
                 c = dict(case)
                 c["fields"] = case["fields"][:i] + case["fields"][i + 1:]
                 c["values"] = case["values"][:i] + case["values"][i + 1:]
                 if "history" in case:
                     c["history"] = [row[:i] + row[i + 1:] for row in case["history"]]
+                if case.get("before"):
+                    c["src"] = case["src"][:i] + case["src"][i + 1:]
                 yield c
+
+    @staticmethod
+    def shrink_relayout(case):
+        """fewer layouts, fewer records through the earlier layouts, new objects instead of kept / moved ones, fewer fields in the
+        earlier layouts, the measured layout as a plain case"""
+        before = case["before"]
+        plain = {k: v for k, v in case.items() if k not in ("before", "via", "src")}
+        yield plain
+
+        def entered(st, via, src):
+            st = {k: v for k, v in st.items() if k not in ("via", "src")}
+            if via:
+                st.update({"via": via, "src": src})
+            return st
+
+        def with_stages(stages):
+            # stages: every layout with its entry, the last one being the measured layout
+            c = dict(plain, before=[entered(st, st.get("via") if k else None, st.get("src")) for k, st in enumerate(stages[:-1])])
+            c.update({"via": stages[-1]["via"], "src": stages[-1]["src"]})
+            return c
+
+        if before[-1]["rows"]:
+            # the last earlier layout as the measured one (its records certainly fit: ref_fits)
+            last = before[-1]
+            c = dict(plain, fields=last["fields"], values=last["rows"][-1], history=last["rows"][:-1])
+            if len(before) > 1:
+                c.update({"before": before[:-1], "via": last["via"], "src": last["src"]})
+            yield c
+        stages = [dict(st) for st in before] + [{"fields": case["fields"], "via": case["via"], "src": case["src"]}]
+        fresh = lambda st: dict(st, via="set", src=[None] * len(st["fields"]))
+        for k in range(len(before)):
+            if len(before) > 1:
+                # without the k-th earlier layout; the layout after it is then entered with new objects
+                rest = stages[:k] + [fresh(stages[k + 1])] + stages[k + 2:]
+                yield with_stages(rest)
+            for i in range(len(before[k]["rows"])):
+                yield with_stages(stages[:k] + [dict(stages[k], rows=before[k]["rows"][:i] + before[k]["rows"][i + 1:])] + stages[k + 1:])
+        for k in range(1, len(stages)):
+            st = stages[k]
+            if st["via"] == "move" or any(j is not None for j in st["src"]):
+                yield with_stages(stages[:k] + [fresh(st)] + stages[k + 1:])
+        for k in range(len(before)):
+            nxt = stages[k + 1]
+            if len(before[k]["fields"]) > 1 and stages[k].get("via") != "move" and all(j is None for j in nxt["src"]) and nxt["via"] == "set":
+                for i in range(len(before[k]["fields"])):
+                    st = dict(stages[k], fields=before[k]["fields"][:i] + before[k]["fields"][i + 1:],
+                              rows=[row[:i] + row[i + 1:] for row in before[k]["rows"]])
+                    if st.get("src") is not None:
+                        st["src"] = st["src"][:i] + st["src"][i + 1:]
+                    yield with_stages(stages[:k] + [st] + stages[k + 1:])
 
     def neighbours(self, case, rng):
         if case["t"] == "field":
